@@ -139,7 +139,9 @@ def check(ctx):
         ctx.check(ok, RC, "C01/token-compare/whole-operands", vb.loc,
                   reason="verify_token returns %s; expected a whole-operand equality of (expected, actual)" % render(r, maxdepth=4),
                   detail="verify_token = eq(expected, actual) over whole operands")
-        nsw = sum(1 for b in vb.blocks if b.term.kind == "switch" and not b.cleanup and not vb.is_noise(b.term))
+        # a switch on a literal (`if false { .. }` left by a statically disabled log level) is not a data-dependent branch
+        nsw = sum(1 for b in vb.blocks if b.term.kind == "switch" and not b.cleanup and not vb.is_noise(b.term)
+                  and flow.strip(van.switch_info(b.idx)[0])[0] != "const")
         ctx.check(nsw == 0, RC, "C01/token-compare/no-branches", vb.loc,
                   reason="unrecognised-implementation: verify_token has %d branches" % nsw, detail="straight-line")
     gb = ctx.body(r"^passage_protocol::crypto::generate_token$", rule=RC)
